@@ -16,6 +16,7 @@ mod c05;
 mod c06;
 mod c07;
 mod c08;
+mod c08_builder;
 
 fn main() {
     let ctx = mc_core::Ctx::from_args();
